@@ -300,6 +300,34 @@ Print Assumptions fixed_bytes_are_file_bytes.
 Print Assumptions fixed_missing_mode.
 Print Assumptions fixed_not_found_exactly_when_missing.
 
+(** * One call, several keys ([resolve_all]): every key is answered as if it were requested alone. *)
+Section C18All.
+  Variable wat_parse wit_dir_encode wit_file_encode : content -> option content.
+  Notation resolve_one_fixed := (resolve_one_fixed wat_parse wit_dir_encode wit_file_encode).
+  Notation resolve_all := (resolve_all wat_parse wit_dir_encode wit_file_encode).
+
+  Theorem keys_resolved_independently : forall wat fs cfg ks,
+    forallb (fun k => negb (is_failure (resolve_one_fixed wat fs cfg k))) ks = true ->
+    resolve_all wat fs cfg ks = map (resolve_one_fixed wat fs cfg) ks.
+  Proof. exact (resolve_all_independent wat_parse wit_dir_encode wit_file_encode). Qed.
+
+  Theorem first_failing_key_ends_the_call : forall wat fs cfg pre k post,
+    forallb (fun k => negb (is_failure (resolve_one_fixed wat fs cfg k))) pre = true ->
+    is_failure (resolve_one_fixed wat fs cfg k) = true ->
+    resolve_all wat fs cfg (pre ++ k :: post) =
+    map (resolve_one_fixed wat fs cfg) pre ++ [resolve_one_fixed wat fs cfg k].
+  Proof. exact (resolve_all_first_failure wat_parse wit_dir_encode wit_file_encode). Qed.
+
+  Theorem answer_is_standalone_answer : forall wat fs cfg ks i o,
+    nth_error (resolve_all wat fs cfg ks) i = Some o ->
+    exists k, nth_error ks i = Some k /\ o = resolve_one_fixed wat fs cfg k.
+  Proof. exact (resolve_all_nth wat_parse wit_dir_encode wit_file_encode). Qed.
+End C18All.
+
+Print Assumptions keys_resolved_independently.
+Print Assumptions first_failing_key_ends_the_call.
+Print Assumptions answer_is_standalone_answer.
+
 (** On the witness of [fs_resolve_table_refuted] the repaired code answers as the table says, and the non-vacuity
     cases of [c18_nonvacuous] are answered identically. *)
 Example c18_fixed_nonvacuous :
